@@ -269,7 +269,7 @@ class Interp:
         return d
 
     # ------------------------------------------------------------------ running
-    def call_function(self, f, args, kwargs, node=None):
+    def call_function(self, f, args, kwargs, node=None, closure=None):
         """inline a repo function with abstract arguments"""
         if self.depth > MAX_DEPTH or any(fr.func is f for fr in self.stack[-3:] if False):
             raise Unsupported(f"inlining depth exceeded at {f.fq}")
@@ -300,6 +300,7 @@ class Interp:
         elif kwargs:
             self.notes.append(f"unexpected keyword(s) {sorted(kwargs)} in call to {f.fq}")
         fr = Frame(f, f.module, env)
+        fr.closure = closure       # enclosing frame of a nested function: its variables are visible
         fr.entry_loop_depth, fr.entry_maybe = self.loop_depth, self.maybe
         self.stack.append(fr)
         self.depth += 1
@@ -723,10 +724,12 @@ class Interp:
             f = f.parent
         # closure of nested function
         clo = getattr(fr, "closure", None)
-        while clo is not None:
+        hops = 0
+        while clo is not None and hops < 6:
             if e.id in clo.env:
                 return self.refine(clo.env[e.id])
-            clo = getattr(clo, "closure", None)
+            clo = getattr(clo, "closure", None) or clo.parent
+            hops += 1
         r = self.prog.lookup_global(fr.module, e.id)
         if r is None:
             raise Unsupported(f"unresolved name {e.id} at {pyfacts.where(fr.func, e)}")
@@ -993,6 +996,8 @@ class Interp:
             return self.new_list(elem=join(oa.elem, ob.elem), kind=oa.kind)
         if isinstance(op, ast.Mult) and oa is not None and oa.kind in ("list", "tuple"):
             return self.new_list(elem=oa.elem, kind=oa.kind)
+        if isinstance(op, ast.Div) and isinstance(a, Sym) and a.tag.endswith("resources.files"):
+            return Sym("respath", b)
         return self.derive("bin" + type(op).__name__, a, b)
 
     def ex_Compare(self, e, fr):
